@@ -264,10 +264,24 @@ def _run_create_task(case, v):
 
                 box = {}
                 before = loop.wakeups
-                worker = threading.Thread(target=lambda: box.setdefault('fut', futures.create_task(coro, loop)))
+
+                def from_thread():
+                    try:
+                        box['fut'] = futures.create_task(coro, loop)
+                    except BaseException as exc:  # noqa: BLE001
+                        box['err'] = exc
+
+                worker = threading.Thread(target=from_thread)
                 worker.start()
                 worker.join()
+                if 'err' in box:
+                    # the calling thread has no event loop of its own (communicator threads do not): the loop is named
+                    v('create-task-raised', f"create_task(coro, loop) called from a thread without an event loop raised {type(box['err']).__name__}: {box['err']}")
+                    return
                 fut = box['fut']
+                if fut.get_loop() is not loop:
+                    v('future-on-wrong-loop', 'the future handed back by create_task(coro, loop) does not live on the loop that was named')
+                    return
                 if loop.wakeups <= before:
                     v('loop-not-woken', 'create_task() called from another thread did not wake the event loop: an idle loop would not run the coroutine')
             elif case.get('implicit_loop'):
